@@ -226,11 +226,26 @@ def rule_dispatch(ctx):
                 raise _U("parameter")
             if k in ("ref", "deref", "cast"):
                 return lk(e[2] if k == "cast" else e[1], found, carg)
+            if k == "agg" and isinstance(e[1], str) and e[1].endswith("Option::Some"):
+                return ("SOME", lk(e[2].get("0"), found, carg))
+            if k == "agg" and isinstance(e[1], str) and e[1].endswith("Option::None"):
+                return ("NONE",)
             if k == "call":
                 nm = str(e[1])
                 short = nm.rsplit("::", 1)[-1]
                 if len(e) > 4 and e[4] == bsid:
                     return ("R",)
+                if "Option" in nm and short in ("unwrap_or", "is_some", "is_none", "unwrap_or_else", "unwrap", "expect"):
+                    v = lk(e[2][0], found, carg)
+                    if isinstance(v, tuple) and v and v[0] in ("SOME", "NONE"):
+                        if short == "is_some":
+                            return int(v[0] == "SOME")
+                        if short == "is_none":
+                            return int(v[0] == "NONE")
+                        if short == "unwrap_or":
+                            return v[1] if v[0] == "SOME" else lk(e[2][1], found, carg)
+                        if short in ("unwrap", "expect") and v[0] == "SOME":
+                            return v[1]
                 if short in ("ok",) and "Result" in nm:
                     v = lk(e[2][0], found, carg)
                     return ("OPT",) if v == ("R",) else _raise("ok of %s" % (v,))
@@ -256,6 +271,8 @@ def rule_dispatch(ctx):
                 raise _U("call of %s" % nm)
             if k == "discr":
                 v = lk(e[1], found, carg)
+                if isinstance(v, tuple) and v and v[0] in ("SOME", "NONE"):
+                    return int(v[0] == "SOME")
                 if v == ("R",):
                     return 0 if found else 1
                 if v == ("OPT",):
@@ -274,6 +291,8 @@ def rule_dispatch(ctx):
                         return ("VALUE",)
                     raise _U("table read")
                 v = lk(base, found, carg)
+                if isinstance(v, tuple) and v and v[0] == "SOME" and e[2] == "0":
+                    return v[1]
                 if v in (("R",), ("OPT",)) and e[2] == "0":
                     if not found:
                         raise _U("index read on the not-found path")
